@@ -155,6 +155,9 @@ class Sim:
         self.stats = dict(switches=0, stalls=0, poll_timeouts=0, msgs=0, long_lat=0,
                           send_blocked=0, clock_reads=0, coarse_equal=0, clock_jumps=0)
         self._shown = None
+        self._mark_at = int(0.8 * self.cfg["max_yields"])
+        self.mark_fn = None
+        self.mark_value = None
         self.wall_offset = 0.0
         if self.cfg.get("clock_jumps"):
             self.cfg["clock_jumps"] = sorted([int(a), float(b)] for a, b in self.cfg["clock_jumps"])
@@ -267,6 +270,8 @@ class Sim:
         """Current task consumes dt of simulated time (a yield point)."""
         me = self.current
         self.nyields += 1
+        if self.nyields == self._mark_at and self.mark_fn is not None:
+            self.mark_value = self.mark_fn()  # (progress probe: lets a check tell "slow but working" from "hung")
         if self.nyields > self.cfg["max_yields"]:
             raise StepCap("more than %d yield points" % self.cfg["max_yields"])
         if stallable and self.cfg["stall_p"] > 0 and self.rng.random() < self.cfg["stall_p"]:
